@@ -146,20 +146,29 @@ class PhaseScreen(object):
         # Cholsky solve can fail - if so do brute force inversion
         try:
             cf = linalg.cho_factor(self.cov_mat_zz)
-            inv_cov_zz = linalg.cho_solve(cf, numpy.identity(self.cov_mat_zz.shape[0]))
+            # solve for A directly: forming the inverse first loses about
+            # half of the available digits when L0 is many pixels
+            self.A_mat = linalg.cho_solve(cf, self.cov_mat_zx).T
         except linalg.LinAlgError:
             # print("Cholesky solve failed. Performing SVD inversion...")
             # inv_cov_zz = numpy.linalg.pinv(self.cov_mat_zz)
             raise linalg.LinAlgError("Could not invert Covariance Matrix to for A and B Matrices. Try with a larger pixel scale or smaller L0")
 
-        self.A_mat = self.cov_mat_xz.dot(inv_cov_zz)
-
     def makeBMatrix(self):
         """
         Calculates the "B" matrix, that turns a random vector into a component of the new phase.
         """
-        # Can make initial BBt matrix first
-        BBt = self.cov_mat_xx - self.A_mat.dot(self.cov_mat_zx)
+        # Can make initial BBt matrix first. It is the Schur complement of
+        # cov_zz in the joint covariance matrix; cov_xx - A.cov_zx cancels
+        # catastrophically for a large outer scale (the result is of order
+        # (pixel_scale/L0)^(5/3) of the terms), the Cholesky factor of the joint
+        # matrix contains it without cancellation
+        try:
+            chol = linalg.cholesky(self.cov_mat, lower=True)
+            chol_xx = chol[self.n_stencils:, self.n_stencils:]
+            BBt = chol_xx.dot(chol_xx.T)
+        except linalg.LinAlgError:
+            BBt = self.cov_mat_xx - self.A_mat.dot(self.cov_mat_zx)
 
         # Then do SVD to get B matrix
         u, W, ut = numpy.linalg.svd(BBt)
